@@ -228,8 +228,8 @@ func c15Signatures(c *core.Ctx) {
 // c15DuringRun: an event that arrives while the top-level code is still running (delivered from the
 // platform's yield point) finds its handler and runs it once; nothing crashes.
 func c15DuringRun(c *core.Ctx) {
-	for _, at := range []int{3, 10, 40, 90, 200} {
-		src := "n := 0\non key k:string\n    n = n + 1\n    print \"key\" k\nend\nfor i := range 60\n    n = n + 10\nend\nprint \"top done\" n\n"
+	for _, at := range []int{20, 40, 90, 150, 200} {
+		src := "n := 0\non key k:string\n    n = n + 1\n    print \"key\" k\nend\nfor range 60\n    n = n + 10\nend\nprint \"top done\" n\n"
 		var ev *evaluator.Evaluator
 		delivered := false
 		var herr error
@@ -245,7 +245,8 @@ func c15DuringRun(c *core.Ctx) {
 		c.Event("events_during_run", 1)
 		c.Distinct(fmt.Sprintf("during-run|%d", at))
 		if !delivered {
-			continue // the run was shorter than this yield
+			c.Violation("harness-event-not-delivered", fmt.Sprintf("the run ended (%s, %d yields) before yield %d", o.Class, o.Yields, at), src, nil)
+			continue
 		}
 		if o.Class == "gopanic" {
 			c.Violation("handler-program-failed:gopanic", fmt.Sprintf("event delivered at yield %d of the top-level run: Go panic %s", at, firstN(o.GoPanic, 200)), src, nil)
